@@ -1,0 +1,24 @@
+//go:build verif
+
+// Contracts for the watermill verification harness (/verif, tool "gowp"). Comment-only.
+
+package requeuer
+
+//@ spec atoiok(s string) bool
+//@ spec atoival(s string) int
+//@ spec itoa(n int) string
+
+//@ spec nextRetries(s string) int := (atoiok(s) ? atoival(s) : 0) + 1
+
+//@ func (*Requeuer).handler
+//@   requires r != nil && msg != nil && msg.Metadata != nil && r.config.GeneratePublishTopic != nil && r.config.Publisher != nil
+//@   callee T = r.config.GeneratePublishTopic
+//@   callee P = r.config.Publisher.Publish
+//@   ensures calls(P) <= old(calls(P)) + 1 [publishes-at-most-once]
+//@   ensures result == nil ==> calls(P) == old(calls(P)) + 1 && ret(P, 0, old(calls(P))) == nil [success-only-after-the-destination-accepted]
+//@   ensures calls(P) == old(calls(P)) + 1 ==> (result == nil) == (ret(P, 0, old(calls(P))) == nil) [nack-when-the-destination-fails]
+//@   ensures calls(P) == old(calls(P)) + 1 ==> calls(T) == old(calls(T)) + 1 && ret(T, 1, old(calls(T))) == nil && arg(P, 0, old(calls(P))) == ret(T, 0, old(calls(T))) && len(arg(P, 1, old(calls(P)))) == 1 && arg(P, 1, old(calls(P)))[0] == msg [the-message-itself-goes-to-the-computed-topic]
+//@   ensures calls(T) == old(calls(T)) + 1 && ret(T, 1, old(calls(T))) != nil ==> result == ret(T, 1, old(calls(T))) && calls(P) == old(calls(P)) && metaKept(msg) [topic-error-returned-nothing-published]
+//@   ensures calls(P) == old(calls(P)) + 1 ==> has(msg.Metadata, RetriesKey) && msg.Metadata[RetriesKey] == itoa(nextRetries(old(msg.Metadata[RetriesKey]))) && (forall k string :: k != RetriesKey ==> has(msg.Metadata, k) == old(has(msg.Metadata, k)) && msg.Metadata[k] == old(msg.Metadata[k])) && msg.UUID == old(msg.UUID) && msg.Payload == old(msg.Payload) [retries-counter-raised-by-exactly-one-everything-else-intact]
+//@   ensures calls(T) == old(calls(T)) ==> calls(P) == old(calls(P)) && result != nil && metaKept(msg) [context-ended-during-the-delay]
+//@   modifies map(msg.Metadata)
